@@ -32,14 +32,14 @@ CHECKS = {
   'engine': 'sim_machine',
   'technique': 'deterministic simulation: seeded store/load/instruction histories on the real symbolic machine, refinement-checked against a concrete byte-addressed reference machine under several valuations',
   'text': 'Seeded exploration with a reference model: histories of stores, loads and state-moving instructions (length 1..12) are executed by the real emulator and by an independent little-endian byte-memory interpreter of the same lifted semantics; every register and a dense window of memory read-backs of widths 8/16/32 are compared under several valuations of the initial symbols. The small space named by the property (<=2 stores + 1 load, widths 8/16/32, offsets 0..7, constant or symbolic base) is sampled without replacement: completely in the thorough tier, a stated fraction in the quick tier.',
-  'note': 'Trusted: the ~300-line reference evaluator (standard bit-vector meaning of the IR operators); one symbolic data base per history and a stack far away from it (the non-aliasing assumption miasmX itself makes); histories on which emulation raises, whose repe/repne flag is not concrete at some step, or whose lifted assignment is ill-typed are discarded and counted; arithmetic/logic instructions are tallied only (their mismatches come from the simplifier, C05/C06).',
+  'note': 'Trusted: the ~300-line reference evaluator (standard bit-vector meaning of the IR operators); one symbolic data base per history and a stack far away from it (the non-aliasing assumption miasmX itself makes); histories on which emulation raises, whose repe/repne flag is not concrete at some step, or whose lifted assignment is ill-typed are discarded and counted; general arithmetic/logic instructions are tallied only (their mismatches come from the simplifier, C05/C06) - pairs of or/and/xor/add with constants on one destination do decide; a 'sumbase' history uses one two-term base (ebx+ecx*scale) instead of the single register; 64-bit cells come from x87 stores whose conversion both sides treat as the same uninterpreted function.',
   'design': 'DESIGN.md 4.3',
  },
  'C10': {
   'engine': 'sim_stream',
   'technique': 'deterministic simulation of the reader seam: seeded byte images behind three stream back ends with EOF/EIO faults at every field boundary, suffix-equivalence and over-read oracles on the recorded read log',
   'text': 'Decides the stream clauses only (offset bookkeeping incl. seek/open positioning, shared file handles and sparse images beyond 4 GiB, suffix equivalence, no over-read, truncation at every length reported as absent, same behaviour on every back end and under injected EOF/EIO at any read, agreement of a sample of decodes with a pristine process). The two for-all-inputs totality clauses are not a simulation target; crashes seen on arbitrary bytes are tallied under out_of_scope_observations and never decide.',
-  'note': 'Trusted: fake file / virt back ends written for this check; images are built from real assembler output, structured random encodings and junk; PYTHONHASHSEED pinned to 0; after a failed decode the stream offset is unspecified.',
+  'note': 'Trusted: fake file / virt back ends written for this check (plus a real buffered OS file with unflushed writes); images are built from real assembler output, structured random encodings and junk; PYTHONHASHSEED pinned to 0; after a failed decode the stream offset is unspecified.',
   'design': 'DESIGN.md 4.2',
  },
  'C13': {
@@ -81,7 +81,7 @@ def build(claimed):
             {'name': 'sim_cache', 'path': 'sim/sim_cache.py', 'serves_properties': ['C12'], 'kind_free_text': 'simulated process lifetimes over a fault-injected cache directory (crash, torn, stale, ENOSPC, read-only)'},
             {'name': 'sim_machine', 'path': 'sim/sim_machine.py', 'serves_properties': ['C07'], 'kind_free_text': 'history generator + concrete reference machine (refinement check)'},
             {'name': 'sim_stream', 'path': 'sim/sim_stream.py', 'serves_properties': ['C10'], 'kind_free_text': 'reader-seam simulator with EOF/EIO injection and read log'},
-            {'name': 'sim_hashseed', 'path': 'sim/sim_hashseed.py', 'serves_properties': ['C13'], 'kind_free_text': 'fresh interpreters under controlled PYTHONHASHSEED and allocation noise'},
+            {'name': 'sim_hashseed', 'path': 'sim/c13.py', 'serves_properties': ['C13'], 'kind_free_text': 'fresh interpreters under controlled PYTHONHASHSEED and allocation noise'},
         ],
         'checks': checks,
         'not_applicable': na,
